@@ -76,7 +76,20 @@ func compileVariant(src string, o ConfOpts, wantProg bool) *compiled {
 	var e *eval.Expr
 	var err error
 	p := safely(func() M {
-		e, err = eval.Compile(cc, dir+src)
+		text := dir + src
+		if o.How == "tail" {
+			// options given programmatically; directive-looking comments that say the opposite INSIDE and AFTER
+			// the expression: only comments before the first token are directives
+			opp := ";;;; optimize:" + map[bool]string{true: "false", false: "true"}[o.Mask&1 != 0]
+			for j, n := range optNames {
+				opp += ", " + string(n) + ":" + map[bool]string{true: "false", false: "true"}[o.Mask&(1<<uint(j)) != 0]
+			}
+			text = src + "\n" + opp + "\n"
+			if i := strings.Index(src, " "); i > 0 && o.Spell%2 == 0 {
+				text = src[:i] + "\n" + opp + "\n" + src[i:] + "\n" + opp
+			}
+		}
+		e, err = eval.Compile(cc, text)
 		return nil
 	})
 	l.Phase = "eval"
@@ -507,6 +520,7 @@ func famEval() {
 				vs = append(vs, ConfOpts{Mask: mk, How: []string{"dir", "mix"}[k%2], Spell: r.Intn(36)})
 			}
 			vs = append(vs, ConfOpts{How: "dirx", Spell: r.Intn(1 << 20)}, ConfOpts{How: "dirx", Spell: r.Intn(1 << 20)})
+			vs = append(vs, ConfOpts{Mask: r.Intn(16), How: "tail", Spell: r.Intn(2)}, ConfOpts{Mask: r.Intn(16), How: "tail", Spell: r.Intn(2)})
 			for k := 0; k < 4; k++ {
 				vs = append(vs, ConfOpts{Mask: 8 | r.Intn(8), Costs: costMaps[1+r.Intn(len(costMaps)-1)]})
 			}
